@@ -328,6 +328,32 @@ def _run_sym(case, ck):
     ck.true("sym-reversal", e <= 1e-7, "%s: reversing the axis direction "
             "changes the hologram by %.2e (beta=%r gamma=%r)" %
             (sh, e, b, g))
+    # the same symmetries for the amplitude matrix in directions whose
+    # azimuth is exactly that of the particle axis, opposite to it, 0 or pi
+    from holopy.scattering import calc_scat_matrix
+    two_pi = 2 * math.pi
+    az = sorted({0.0, math.pi, g % two_pi, (g + math.pi) % two_pi})
+    tt, pp = [v.ravel() for v in np.meshgrid([0.8, 2.0], az, indexing="ij")]
+    dsph = hp.detector_points(theta=tt, phi=pp)
+
+    def smat(s):
+        ck.trans += 1
+        return calc_scat_matrix(dsph, s, H.NMED, H.WL,
+                                theory=Tmatrix()).values
+    S0 = smat(_shape(sh, xev, b, g))
+    ssc = float(np.abs(S0).max())
+    for name, s in (("spin", _shape(sh, xev, b, g, alpha=1.3)),
+                    ("reversal", _shape(sh, xev, math.pi - b,
+                                        (g + math.pi) % two_pi))):
+        S1 = smat(s)
+        err = np.abs(S1 - S0).max(axis=(1, 2)) / ssc
+        e = float(err.max())
+        ck.metric("symmetry-aligned-azimuth", e)
+        ck.true("sym-" + name, e <= 1e-5, "%s: %s changes the amplitude "
+                "matrix by %.2e in the direction theta=%r phi=%r (axis "
+                "azimuth gamma=%r, beta=%r)" %
+                (sh, name, e, float(tt[err.argmax()]),
+                 float(pp[err.argmax()]), g, b))
     # mirror y -> -y : gamma -> -gamma (written in [0, 2pi) ), centre and
     # detector mirrored; x polarization lies in the mirror plane
     gm = (-g) % (2 * math.pi)
